@@ -48,6 +48,25 @@ def run(ck):
             sx = sx2
         return sx
 
+    def iter_unique(p, sym):
+        # after fission two sibling loops share one iteration Sym; the Gallina models find the loop by its Sym, so
+        # such instances are not compared term-for-term (they are still executed before/after by the search)
+        from exo.core.LoopIR import LoopIR as _L
+        n = [0]
+
+        def walk(stmts):
+            for st in stmts:
+                if isinstance(st, _L.For):
+                    n[0] += st.iter == sym
+                    walk(st.body)
+                elif isinstance(st, _L.If):
+                    walk(st.body)
+                    walk(st.orelse)
+        walk(p._loopir_proc.body)
+        return n[0] == 1
+
+    shared_iter = {"skipped": 0}
+
     def shift_model(p, q, op, descr, site, replay):
         # correspondence of the Gallina rewrite ShiftLoop.shift_proc (about which C01_shift_proc is proved) with the
         # real Procedure.shift_loop: identical terms; and whether the instance lies inside the theorem's hypotheses
@@ -60,6 +79,9 @@ def run(ck):
         node = p._loopir_proc
         for attr, idx in ast.literal_eval(m.group(1)):
             node = getattr(node, attr)[idx]
+        if not iter_unique(p, node.iter):
+            shared_iter["skipped"] += 1
+            return
         name = s.sc.ref(p)
         ex = s.sc.ex
         job = "%s %s (int %s)" % (name, ex.sym(node.iter), m.group(2))
@@ -95,6 +117,9 @@ def run(ck):
         for attr, idx in path:
             node, outer = getattr(node, attr)[idx], getattr(outer, attr)[idx]
         inner = outer.body[0]
+        if not iter_unique(p, node.iter):
+            shared_iter["skipped"] += 1
+            return
         name = s.sc.ref(p)
         ex = s.sc.ex
         real = ex.proc_sexp(q._loopir_proc)
@@ -129,6 +154,9 @@ def run(ck):
         node = p._loopir_proc
         for attr, idx in ast.literal_eval(m.group(1)):
             node = getattr(node, attr)[idx]
+        if not iter_unique(p, node.iter):
+            shared_iter["skipped"] += 1
+            return
         name = s.sc.ref(p)
         ex = s.sc.ex
         job = "%s %s" % (name, ex.sym(node.iter))
@@ -164,6 +192,9 @@ def run(ck):
         node = p._loopir_proc
         for attr, idx in ast.literal_eval(m.group(1)):
             node = getattr(node, attr)[idx]
+        if not iter_unique(p, node.iter):
+            shared_iter["skipped"] += 1
+            return
         name = s.sc.ref(p)
         ex = s.sc.ex
         job = "%s %s" % (name, ex.sym(node.iter))
@@ -217,6 +248,9 @@ def run(ck):
         if has_binder(node.body):
             un_corr["not_comparable_inner_binders_renamed"] += 1
             return
+        if not iter_unique(p, node.iter):
+            shared_iter["skipped"] += 1
+            return
         name = s.sc.ref(p)
         ex = s.sc.ex
         job = "%s %s" % (name, ex.sym(node.iter))
@@ -237,6 +271,60 @@ def run(ck):
                                      "descr": descr, "model": model, "impl": real})
 
     s.after_apply.append(unroll_model)
+    cut_corr = {"same": 0, "differ": 0, "syntactic_conditions_hold": 0, "outside_syntactic_conditions": 0,
+                "not_comparable_inner_binders_renamed": 0}
+
+    def cut_model(p, q, op, descr, site, replay):
+        # correspondence of CutLoop.cut_proc (C01_cut_proc) with the real Procedure.cut_loop (bodies without inner
+        # binders); the cut point and the fresh Sym of the second loop are read off the real result
+        if op != "cut_loop":
+            return
+        import ast, re
+        from exo.core.LoopIR import LoopIR as _L
+        m = re.match(r"N(\[.*?\]) cut=", descr)
+        if not m:
+            return
+        path = ast.literal_eval(m.group(1))
+        node, par_new = p._loopir_proc, q._loopir_proc
+        for attr, idx in path[:-1]:
+            node, par_new = getattr(node, attr)[idx], getattr(par_new, attr)[idx]
+        attr, idx = path[-1]
+        node, first, second = getattr(node, attr)[idx], getattr(par_new, attr)[idx], getattr(par_new, attr)[idx + 1]
+
+        def has_binder(stmts):
+            for st in stmts:
+                if isinstance(st, (_L.For, _L.Alloc, _L.WindowStmt)):
+                    return True
+                if isinstance(st, _L.If) and (has_binder(st.body) or has_binder(st.orelse)):
+                    return True
+            return False
+
+        if has_binder(node.body):
+            cut_corr["not_comparable_inner_binders_renamed"] += 1
+            return
+        if not iter_unique(p, node.iter):
+            shared_iter["skipped"] += 1
+            return
+        name = s.sc.ref(p)
+        ex = s.sc.ex
+        real = ex.proc_sexp(q._loopir_proc)
+        job = "%s %s %s %s" % (name, ex.sym(node.iter), ex.sym(second.iter), ex.expr(first.hi))
+        model = s.sc.interp.ask("(cut %s)" % job)
+        inside = s.sc.interp.ask("(cutok %s)" % job).strip() == "ok"
+        defs = {n: sx for (n, sx) in ex.procs.values()}
+        stream = "cut_loop-model-vs-impl"
+        ck.case(stream, (replay["program"], descr), sample={"loop": str(node.iter), "cut": str(first.hi)},
+                tag="syntactic-conditions-hold" if inside else "outside-syntactic-conditions")
+        cut_corr["syntactic_conditions_hold" if inside else "outside_syntactic_conditions"] += 1
+        if expand(model, defs) == expand(real, defs):
+            cut_corr["same"] += 1
+            ck.corr_agree(stream)
+        else:
+            cut_corr["differ"] += 1
+            ck.corr_diverge(stream, {"program": replay["program"], "source": replay["source"],
+                                     "descr": descr, "model": model, "impl": real})
+
+    s.after_apply.append(cut_model)
     findings = s.run(n_programs=ck.n(60, 600), budget_s=ck.n(110, 1300))
     # second stream: aliasing stress (windows of windows, the same cell reached through two names) under the
     # operations whose side conditions are location-set queries
@@ -259,6 +347,8 @@ def run(ck):
     ck.cov["reorder_loops_model_correspondence"] = reo_corr
     ck.cov["remove_loop_model_correspondence"] = rm_corr
     ck.cov["unroll_loop_model_correspondence"] = un_corr
+    ck.cov["cut_loop_model_correspondence"] = cut_corr
+    ck.cov["model_correspondence_skipped_iteration_sym_shared_by_several_loops"] = shared_iter["skipped"]
     ck.cov["operation_crashes"] = s.crashes
     ck.cov["inputs_run_in_reference_semantics"] = s.sc.runs + s2.sc.runs
     ck.cov["comparisons_where_source_ran_to_completion"] = s.sc.nontrivial
